@@ -647,8 +647,9 @@ func ruleMergeQueued(r *Report) {
 		ok := false
 		deepVisitE(fn, func(ins, _ ssa.Instruction, env *venv) {
 			if cc, _, _ := callCommon(ins); cc != nil {
-				if sc := cc.StaticCallee(); sc != nil && sc.Name() == "Merge" {
-					if rn2 := recvNamed(sc); rn2 != nil && strings.HasPrefix(rn2.Obj().Name(), "rw") && sameE(cc.Args[1], env, fn.Params[2], nil, 0) {
+				if accessorMethodCall(cc, "Merge") && feasibleWithConsts(ins, env) {
+					arg := cc.Args[len(cc.Args)-1]
+					if sameE(arg, env, fn.Params[2], nil, 0) {
 						ok = true
 					}
 				}
@@ -952,10 +953,8 @@ func ruleSetQueued(r *Report) {
 					}
 				}
 			default:
-				if sc := cc.StaticCallee(); sc != nil && sc.Name() == "Set" && len(cc.Args) >= 2 {
-					if rn := recvNamed(sc); rn != nil && strings.HasPrefix(rn.Obj().Name(), "rw") && fromValue(cc.Args[1]) {
-						ok = true
-					}
+				if accessorMethodCall(cc, "Set") && len(cc.Args) >= 1 && feasibleWithConsts(ins, env) && fromValue(cc.Args[len(cc.Args)-1]) {
+					ok = true
 				}
 			}
 		})
